@@ -1,20 +1,13 @@
 package main
 
 import (
-	"errors"
 	"fmt"
-	"os"
 
-	"github.com/jsightapi/jsight-schema-core/kit"
 	"github.com/jsightapi/jsight-schema-core/notations/jschema"
 )
 
 func main() {
-	root := jschema.New("root", os.Args[1])
-	err := root.Check()
-	var je kit.JSchemaError
-	if errors.As(err, &je) {
-		fmt.Println("file", je.Filename(), "index", je.Index(), "line", je.Line(), "type", je.IncorrectUserType(), "len", len(os.Args[1]))
+	for _, t := range []string{"\"a\fb\"", `"a\fb"`, "\"a\x01b\""} {
+		fmt.Printf("%q -> %v\n", t, jschema.New("r", t).Check())
 	}
-	fmt.Println(err)
 }
